@@ -56,7 +56,9 @@ Record case := {
   c_bonds : list (Z * Z * Z);        (*   heavy-atom bonds with order *)
   c_ident : list (Z * Z);            (* returned key -> atom id (found by the harness from the neighbourhoods; CHECKED below) *)
   c_chiral : list (Z * pystr);       (* atom id -> label as written *)
-  c_rel : list (Z * Z * Z * Z * bool)   (* reference relations (l1, a1, a2, l2, cis) in atom ids *)
+  c_rel : list (Z * Z * Z * Z * bool);  (* reference relations (l1, a1, a2, l2, cis) in atom ids *)
+  c_wb : list (Z * Z * bool * bool)     (* marked (ligand id, anchor id): ligand WRITTEN before its anchor;
+                                           ligand cut off from its anchor (mark written at both ends of the cut) *)
 }.
 
 Definition corr_ok (c : case) : bool :=
@@ -137,22 +139,64 @@ Definition rel_same_support (got want : list rel) : bool :=
   Nat.eqb (length got) (length want)
   && forallb (fun x => existsb (same_quad x) want) got && forallb (fun y => existsb (same_quad y) got) want.
 
-(** 0 = all clauses hold; otherwise the number of the first failing clause *)
+(** ---- the known-finding classes.  kb = ligand key < anchor key; wb = ligand written before its anchor
+    (taken from the variant; kb when both lie in one fragment).  pysmiles' table uses kb of the FIRST ligand
+    and assumes wb = false for the second; its conflict test uses kb of both ligands of one anchor. *)
+Definition wb_lookup (c : case) (l a : Z) : bool * bool :=
+  let i := ident_of (c_ident c) in
+  match find (fun e => let '(x, y, _, _) := e in Z.eqb x (i l) && Z.eqb y (i a)) (c_wb c) with
+  | Some (_, _, w, cut) => (w, cut)
+  | None => (l <? a, false)
+  end.
+Definition flipped (c : case) (x : sub) : bool :=
+  negb (Bool.eqb (s_lig x <? s_anc x) (fst (wb_lookup c (s_lig x) (s_anc x)))).
+Definition pair_broken (c : case) (p : sub * sub) : bool :=
+  table_broken (s_lig (fst p) <? s_anc (fst p)) (fst (wb_lookup c (s_lig (fst p)) (s_anc (fst p))))
+               (fst (wb_lookup c (s_lig (snd p)) (s_anc (snd p)))).
+Definition pair_cut (c : case) (p : sub * sub) : bool :=
+  snd (wb_lookup c (s_lig (fst p)) (s_anc (fst p))) || snd (wb_lookup c (s_lig (snd p)) (s_anc (snd p))).
+(** 0: no pair breaks the table's assumptions; 14: some pair does and no cut-off ligand is involved (then
+    simply: the second ligand's key is smaller than its anchor's, EzDefs.in_class); 15: with a cut-off ligand *)
+Definition case_class_code (c : case) : nat :=
+  match c_before c with
+  | Some g =>
+      match all_pairs g (ez_class_dict g) with
+      | Ok ps => if existsb (fun p => pair_broken c p && pair_cut c p) ps then 15%nat
+                 else if existsb (pair_broken c) ps then 14%nat else 0%nat
+      | Err _ => 0%nat
+      end
+  | None => 0%nat
+  end.
+(** the conflict test raised although the marks are consistent as written: exactly one of the two
+    tagged ligands of an anchor has its key on the other side of the anchor than where it was written *)
+Definition anchor_conflict (c : case) (g : graph) (ez : ezdict) (a o : Z) : bool :=
+  match on_anchor g ez a o with
+  | [x; y] => xorb (flipped c x) (flipped c y)
+  | _ => false
+  end.
+Definition conflict_class (c : case) : bool :=
+  match c_before c with
+  | Some g =>
+      let ez := ez_class_dict g in
+      match annotate_ez_isomers_cgsmiles g with Err EValue => true | _ => false end
+      && existsb (fun e => let '(a1, a2, d) := e in
+                           is_two (aget (S "order") d) && (anchor_conflict c g ez a1 a2 || anchor_conflict c g ez a2 a1))
+                 (edges_data g)
+  | None => false
+  end.
+
+(** 0 = all clauses hold; otherwise the number of the first failing clause
+    (14, 15, 16: the failure lies inside a known defect class, see above) *)
 Definition prop_fail (c : case) : nat :=
   if negb (c_judged c) then 0%nat else
   match c_ret c with
-  | None => 9%nat
+  | None => if conflict_class c then 16%nat else 9%nat
   | Some g =>
       if negb (wf_graphb g && ident_ok c g) then 1%nat
       else if negb (refs_ok g) then 2%nat
       else if negb (chiral_ok c g) then 3%nat
       else if rel_contradiction (rel_got c g) (rel_want c) then
-             (* 14: inside the known defect class (EzDefs.in_class on the molecule the step received) *)
-             (if match c_before c with Some b => in_class b | None => false end then 14%nat else 4%nat)
+             match case_class_code c with 0%nat => 4%nat | n => n end
       else if negb (rel_same_support (rel_got c g) (rel_want c)) then 5%nat
       else 0%nat
   end.
-
-(** the known-finding class, evaluated on the molecule the annotation step received *)
-Definition case_in_class (c : case) : bool :=
-  match c_before c with Some g => in_class g | None => false end.
